@@ -42,6 +42,7 @@ UNITS = {
     "m": (F(1), (F(1), F(0), F(0))),
     "cm": (F(1, 100), (F(1), F(0), F(0))),
     "mm": (F(1, 1000), (F(1), F(0), F(0))),
+    "km": (F(1000), (F(1), F(0), F(0))),
     "s": (F(1), (F(0), F(1), F(0))),
     "kg": (F(1), None),                       # only used by template nodes (never in arithmetic)
     "[len]": (F(2), (F(1), F(0), F(0))),
@@ -283,6 +284,7 @@ def unit_factor(unit):
 
 
 # ----------------------------------------------------------------------------------------------- logical
+STRICT_MIN = F(1, 10 ** 10)
 EQ_IN = F(1, 10 ** 7)       # relative offsets <= 1e-7 are "equal to 1e-6 relative" beyond doubt
 EQ_OUT = F(99, 10 ** 7)     # relative offsets >= 9.9e-6 are "different" beyond doubt (1e-5 literals, rounded)
 
@@ -469,6 +471,17 @@ def log_eval(a, env):
         elif rel >= EQ_OUT:
             equal = False
         else:
+            equal = None
+        if op in ("<", ">"):
+            # strict comparisons are exact ("A is smaller than B", no precision in the documentation): demanded for
+            # every difference far above float rounding (>= 1e-10 relative), and for identical values written in
+            # the same unit; in between the rounding of the unit conversion decides
+            if rel >= STRICT_MIN:
+                return lv < rv if op == "<" else lv > rv
+            if rel == 0 and l[3] == r[3]:
+                return False
+            raise RefSkip("strict comparison of values equal up to rounding")
+        if equal is None:
             raise RefSkip("offset inside the band where 'equal to 1e-6 relative' is ambiguous")
         if op == "==":
             return equal
@@ -529,12 +542,17 @@ def tpl_eval(pieces, env):
             out += p[1]
             continue
         kind, val, _ = env.nodes[p[1]]
+        element = False
         if p[2]:
+            element = isinstance(val, list)
             val = _apply_slice(val, p[2])
         if isinstance(val, list):
             raise RefSkip("whole-array output (string form not specified)")
         try:
             out += format(val, p[3] or "")
-        except (ValueError, TypeError):
-            raise RefSkip("format not applicable to this value in Python")
+        except (ValueError, TypeError) as e:
+            if element:
+                raise RefSkip("format refused by Python for an array element (numpy scalar types differ)")
+            # formatted "as Python's format() would": where format() raises, the template has to fail as well
+            raise RefRaise("format(%r, %r) raises %s" % (val, p[3], type(e).__name__))
     return out
